@@ -23,7 +23,7 @@ func registerC15() {
 		Level: "exploration",
 		Rule: "every entry of the live lookup table (hook), every known message number and every member of the 17 file containers is examined; a case is one " +
 			"(message, field) entry (static agreement of entry, struct field type and constructor value) and, dynamically, one stream carrying exactly that field at profile size " +
-			"decoded under every container hosting the message (else Activity) and re-encoded when hosted; plus, per known message and hosting container, two streams in which the message arrives under a compressed timestamp header (zero-field definition; every other field defined and invalid): the carried time must land in the struct field the table gives for field 253 and nowhere else; non-trivial: the entry exists and was compared",
+			"decoded under every container hosting the message (else Activity) and re-encoded when hosted; plus, per known message and hosting container, two streams in which the message arrives under a compressed timestamp header (zero-field definition; every other field defined and invalid): the carried time must land in the struct field the table gives for field 253 and nowhere else; and per entry a definition with each of the 17 base types (three sizes, both byte orders): rejected, or decoded and re-encoded without a panic; non-trivial: the entry exists and was compared",
 		Assume: []string{
 			"the bundled SDK 21.40 workbook, read by the harness's own xlsx reader, is the independent source for field numbers and names; the 23 table entries newer than 21.40 are compared with ref/sdk21115.go, a list written down at development time and reviewed by hand against the SDK 21.115 profile (a pinned record, not a second derivation)",
 		},
@@ -229,6 +229,7 @@ func c15Main(c *lib.Ctx) {
 	c15Workbook(c, perMesg)
 	c15Dynamic(c, entries)
 	c15Compressed(c)
+	c15OtherBaseTypes(c, entries)
 	c.Sample("entry", 1, map[string]interface{}{"message": 20, "field": 253, "struct_field": lib.FieldName(20, prof.Field(20, 253).Sindex), "type_word": prof.Field(20, 253).Raw})
 }
 
@@ -488,6 +489,72 @@ func c15Compressed(c *lib.Ctx) {
 				c.Count("compressed_header_streams", 1)
 				if prof.Field(m, 253) == nil {
 					c.Count("compressed_header_streams_message_without_253", 1)
+				}
+			}
+		}
+	}
+}
+
+// c15OtherBaseTypes: "no profile-driven reflection access in decoder or encoder can fail for any
+// (message, field) pair" also when the definition on the wire declares another base type than
+// the profile: for every entry, every one of the 17 base types, at the declared type's element
+// size, the entry's profile size and a multiple: the definition is either rejected with an
+// error or the record decodes (and, when hosted, re-encodes) without a panic.
+func c15OtherBaseTypes(c *lib.Ctx, entries []fit.VerifField) {
+	prof := lib.Profile()
+	for _, e := range entries {
+		pf := prof.Field(e.Mesg, e.Slot)
+		if pf == nil || e.Mesg == 0 {
+			continue
+		}
+		ft := byte(4)
+		for _, t := range lib.FileTypes {
+			if prof.Hosted(t.Type, e.Mesg) {
+				ft = t.Type
+				break
+			}
+		}
+		pbt := ref.BaseTypes[pf.Base]
+		for _, bt := range ref.BaseTypes {
+			sizes := map[int]bool{bt.Size: true, pbt.Size * int(pf.Length): true, bt.Size * 3: true}
+			for sz := range sizes {
+				if sz <= 0 || sz > 255 {
+					continue
+				}
+				for arch := byte(0); arch < 2; arch++ {
+					plan := &ref.Plan{HeaderSize: 14, Proto: 0x10, ProfVer: 2115}
+					plan.Records = append(plan.Records,
+						ref.Record{IsDef: true, Local: 0, Global: 0, Fields: []ref.FieldDef{{Num: 0, Size: 1, Base: 0}}},
+						ref.Record{Local: 0, Data: [][]byte{{ft}}},
+						ref.Record{IsDef: true, Local: 1, Arch: arch, Global: e.Mesg, Fields: []ref.FieldDef{{Num: e.Num, Size: byte(sz), Base: bt.Code}}})
+					for _, fill := range []byte{0x41, 0xFF, 0x00} {
+						d := make([]byte, sz)
+						for i := range d {
+							d[i] = fill
+						}
+						plan.Records = append(plan.Records, ref.Record{Local: 1, Data: [][]byte{d}})
+					}
+					b := plan.Bytes()
+					c.SetInflight(b)
+					f, derr, out := lib.GuardedDecode(b)
+					c.Eval()
+					if out.Panicked || out.Hang {
+						c.Violation(b, "message %d field %d defined with base type %s, size %d, arch %d: Decode panicked: %s\n%s", e.Mesg, e.Num, bt.Name, sz, arch, out.Panic, out.Stack)
+						return
+					}
+					if derr != nil {
+						c.Count("other_base_type_definitions_rejected", 1)
+						continue
+					}
+					c.Count("other_base_type_definitions_accepted", 1)
+					for a := 0; a < 2; a++ {
+						_, _, eo := lib.GuardedEncode(f, archOrder(a))
+						c.Eval()
+						if eo.Panicked {
+							c.Violation(b, "message %d field %d defined with base type %s, size %d: re-encoding the decoded File panicked: %s", e.Mesg, e.Num, bt.Name, sz, eo.Panic)
+							return
+						}
+					}
 				}
 			}
 		}
